@@ -152,6 +152,7 @@ func refRender(ns []bnode, defs map[string][][]bnode, leaf int, cur string, curL
 }
 
 func suiteC10(cfg Config, res *Result) {
+	defer c10Fixed(res)
 	res.Rule = "inheritance chains of depth 1..5 served from an in-memory loader: a base document with blocks at top level, nested in blocks, in if-branches and in for-loops; every level overrides a random subset (text, block.Super, Super of Super, new nested blocks), inherits the rest and writes junk outside blocks; every template of the chain is rendered and compared with a reference resolution (most-derived definition; Super = next less-derived) and with the Lean model; plus the invalid shapes (second extends, extends below root level, duplicate block name) must be compile errors; non-trivial = chain depth >= 2 with at least one Super; distinct by chain"
 	n := 2500
 	if cfg.Thorough() {
@@ -339,6 +340,56 @@ func sortStrings(xs []string) {
 	for i := 1; i < len(xs); i++ {
 		for j := i; j > 0 && xs[j] < xs[j-1]; j-- {
 			xs[j], xs[j-1] = xs[j-1], xs[j]
+		}
+	}
+}
+
+// c10Fixed: a block rendered several times in one execution (inside a loop of the base) reaches its
+// parent anew each time; and a rendering that failed inside a parent's definition leaves nothing
+// behind for the next use of block.Super, in this or any other chain
+func c10Fixed(res *Result) {
+	files := map[string]string{
+		"base.tpl":  "{% for x in items %}{% block a %}[{{ x }}]{% endblock %}{% endfor %}",
+		"mid.tpl":   `{% extends "base.tpl" %}{% block a %}mid({{ block.Super }}){% endblock %}`,
+		"leaf.tpl":  `{% extends "mid.tpl" %}{% block a %}leaf({{ block.Super }}{{ block.Super }}){% endblock %}`,
+		"mac.tpl":   `{% extends "base2.tpl" %}{% block b %}{% for x in items %}<{{ block.Super }}{{ x }}>{% endfor %}{% endblock %}`,
+		"base2.tpl": "{% block a %}base-a:{{ 1 / zero }}{% endblock %}|{% block b %}base-b{% endblock %}",
+		"bad.tpl":   `{% extends "base2.tpl" %}{% block a %}bad[{{ block.Super }}]{% endblock %}`,
+		"other.tpl": `{% extends "base2.tpl" %}{% block b %}other[{{ block.Super }}]{% endblock %}`,
+	}
+	set := pongo2.NewSet("c10f", &memLoader{files: files})
+	render := func(name string, ctx pongo2.Context) string {
+		tpl, err := set.FromCache(name)
+		if err != nil {
+			return "compile: " + err.Error()
+		}
+		r := execOnce(tpl, ctx)
+		if r.pan != "" || r.err != "" {
+			return r.String()
+		}
+		return "ok " + r.out
+	}
+	items := []string{"x", "y", "z"}
+	for _, c := range [][2]string{
+		{"base.tpl", "ok [x][y][z]"}, {"mid.tpl", "ok mid([x])mid([y])mid([z])"}, {"leaf.tpl", "ok leaf(mid([x])mid([x]))leaf(mid([y])mid([y]))leaf(mid([z])mid([z]))"},
+		{"mac.tpl", "ok base-a:1|<base-bx><base-by><base-bz>"},
+	} {
+		res.Cases++
+		res.DistinctNontrivial++
+		if got := render(c[0], pongo2.Context{"items": items, "zero": 1}); got != c[1] {
+			res.add(Finding{Kind: "oracle", Proj: "reference", Sig: "c10-super-in-repeated-block", Case: fmt.Sprintf("%s with %q", c[0], files), Impl: got, Model: c[1]})
+		}
+	}
+	for round := 0; round < 3; round++ {
+		res.Cases++
+		first := render("bad.tpl", pongo2.Context{"zero": 0})
+		if !strings.HasPrefix(first, "err") {
+			res.add(Finding{Kind: "oracle", Proj: "reference", Sig: "c10-super-error-lost", Case: "bad.tpl with zero=0", Impl: first, Model: "an execution error"})
+		}
+		for _, c := range [][2]string{{"other.tpl", "ok base-a:1|other[base-b]"}, {"bad.tpl", "ok bad[base-a:1]|base-b"}} {
+			if got := render(c[0], pongo2.Context{"zero": 1}); got != c[1] {
+				res.add(Finding{Kind: "oracle", Proj: "reference", Sig: "c10-super-after-failed-render", Case: fmt.Sprintf("%s after a rendering of bad.tpl that failed inside block.Super; %q", c[0], files), Impl: got, Model: c[1]})
+			}
 		}
 	}
 }
